@@ -1,6 +1,6 @@
 (* C14/Props.v — property theorems only (statements + exact lemma), witnesses and non-vacuity examples. *)
-From Coq Require Import List Bool ZArith.
-From Exo Require Import Base.Util C14.Model C14.Proofs C14.Proofs_idle.
+From Coq Require Import List Bool ZArith Lia.
+From Exo Require Import Base.Util C14.Model C14.Proofs C14.Proofs_idle C14.Proofs_window.
 Import ListNotations.
 Local Open Scope Z_scope.
 
@@ -200,6 +200,54 @@ Proof.
 Qed.
 Print Assumptions C14_round_replay_general.
 
+(* ---- the characterisation of the restart-safe block boundaries (the former tested conjecture [conj]) ---------------- *)
+(* For ALL never-stopped histories over valid params (params_ok + Interval >= 2*MaxNonce, as Params.Validate demands), at a block
+   boundary where no feeder that has just left its window still has items inside the replay window ([band_clear], see
+   design/C14.md for why this band is excluded):
+
+     the memory rebuilt from the store equals the live one up to the filter's nonce sets (and satisfies the invariant)
+       <->  every round that is still inside its submission window is open in the live memory, or older than the last
+            validator-set change (then it was force-sealed, and the replay re-applies the forced seal),
+
+   i.e. the ONLY way such a boundary is not restart-safe is a round that was closed inside its window without a recorded
+   validator-set change after its start: finalized by a transaction (known finding C14-final-reopen, C14_restart_refuted_final)
+   or force-sealed by a validator update that did not change the set. Validator-set changes inside the replay window are
+   covered (fix-c14-replay-forced-seal). Proof: invariants [LIVE] (every live worker's aggregation state = replay of the items
+   persisted/cached for its round) and [IVst] (no item is accepted for a force-sealed round), kept through DeliverTx and
+   EndBlock; projection of recache onto one feeder ([recache_window]); canonical key-sorted tables. *)
+Theorem C14_restart_safe_iff : forall p vals next0 ops vu,
+  params_ok2 p -> forallb plain ops = true ->
+  let st := fst (run p (init_state vals next0) (ops ++ [OEnd vu])) in
+  band_clear p st ->
+  (synced p st <-> window_open p st).
+Proof.
+  intros p vals next0 ops vu Hok2 Hp st Hband. pose proof Hok2 as [Hok _].
+  assert (Hp1 : forallb plain (ops ++ [OEnd vu]) = true) by (rewrite forallb_app, Hp; reflexivity).
+  destruct (init_LIVE p vals next0 Hok) as [HL0 HV0].
+  destruct (run_LIVE p Hok (ops ++ [OEnd vu]) (init_state vals next0) [] Hp1 HL0 HV0) as [HL _].
+  apply synced_iff_window_open; try assumption.
+  - apply C14_round_table_closed_form; assumption.
+  - apply run_safe; [assumption | apply init_safe].
+  - apply run_IV; try assumption. apply init_IV.
+Qed.
+Print Assumptions C14_restart_safe_iff.
+
+(* ... and therefore, observationally: a restart at such a boundary is invisible - result codes and committed store - for ALL
+   continuations. *)
+Theorem C14_restart_safe : forall p vals next0 ops1 vu ops2,
+  params_ok2 p -> forallb plain ops1 = true -> forallb plain ops2 = true ->
+  let st := fst (run p (init_state vals next0) (ops1 ++ [OEnd vu])) in
+  band_clear p st -> window_open p st ->
+  observe (run p (init_state vals next0) ((ops1 ++ [OEnd vu]) ++ ORestart :: ops2)) =
+  observe (run p (init_state vals next0) ((ops1 ++ [OEnd vu]) ++ ops2)).
+Proof.
+  intros p vals next0 ops1 vu ops2 Hok2 H1 H2 st Hband Hwo. pose proof Hok2 as [[_ [Hmn _]] _].
+  assert (Hp1 : forallb plain (ops1 ++ [OEnd vu]) = true) by (rewrite forallb_app, H1; reflexivity).
+  apply single_restart; try assumption; [lia | apply init_safe|].
+  apply (C14_restart_safe_iff p vals next0 ops1 vu Hok2 H1 Hband). exact Hwo.
+Qed.
+Print Assumptions C14_restart_safe.
+
 (* ---- non-vacuity ----------------------------------------------------------------------------------- *)
 (* a restart in the MIDDLE of a submission window, with a partial aggregation in memory, that is restart-safe:
    one message per validator so far, nothing finalized, no validator-set change in the window *)
@@ -247,3 +295,20 @@ Example C14_live_round_repeated :
   exists w2 its, live_round 3 (new_worker [(0, 101); (1, 100); (2, 100)])
     [(0, 1, 101, [(1, 100)]); (0, 2, 101, [(2, 101)]); (1, 1, 100, [(3, 99)])] = Some (w2, its) /\ length its = 3%nat.
 Proof. eexists. eexists. split; [vm_compute; reflexivity | reflexivity]. Qed.
+
+(* C14_restart_safe_iff / C14_restart_safe are not vacuous: wp satisfies params_ok2; the mid-window state e1a (one message
+   persisted, worker with a partial aggregation) satisfies the hypotheses and has every in-window round open; the finalized
+   state w2a satisfies the hypotheses but has a closed in-window round - exactly the refutation point *)
+Example C14_wp_ok2 : params_ok2 wp.
+Proof. split; [exact C14_wp_ok|]. intros f [<-|[<-|[]]]; simpl; discriminate. Qed.
+Example C14_iff_hyps_mid_window :
+  thm_hyps_b wp (fst (run wp (init_state wv wn) e1a)) = true /\ thm_open_b wp (fst (run wp (init_state wv wn) e1a)) = true.
+Proof. vm_compute. split; reflexivity. Qed.
+Example C14_iff_hyps_final :
+  thm_hyps_b wp (fst (run wp (init_state wv wn) w2a)) = true /\ thm_open_b wp (fst (run wp (init_state wv wn) w2a)) = false.
+Proof. vm_compute. split; reflexivity. Qed.
+(* a validator-set change inside the window (w3a): hypotheses hold, the force-sealed round counts as fine, and it is synced *)
+Example C14_iff_hyps_valset :
+  thm_hyps_b wp (fst (run wp (init_state wv wn) w3a)) = true /\ thm_open_b wp (fst (run wp (init_state wv wn) w3a)) = true /\
+  synced_b wp (fst (run wp (init_state wv wn) w3a)) = true.
+Proof. vm_compute. repeat split; reflexivity. Qed.
